@@ -148,11 +148,15 @@ def value_ok(choices_att, value):
 # --------------------------------------------------------------------------
 
 class Node:
-    __slots__ = ("name", "value", "kids", "leaf", "origin")
+    __slots__ = ("name", "value", "kids", "leaf", "origin", "attrs", "uc",
+                 "user_names")
 
     def __init__(self, name, value="", leaf=True, origin=""):
         self.name, self.value, self.kids = name, value, []
         self.leaf, self.origin = leaf, origin
+        self.attrs = None       # user attributes (copied unchecked content)
+        self.uc = None          # unchecked section: names declared below it
+        self.user_names = ()    # ... and the names the user put there
 
     def to_obj(self):
         return {"n": self.name, "v": self.value,
@@ -173,6 +177,7 @@ def utext(u):
 
 def copy_user(u):
     n = Node(u.tag, utext(u), leaf=(len(u) == 0), origin="unchecked")
+    n.attrs = dict(u.attrib)
     for c in u:
         n.kids.append(copy_user(c))
     return n
@@ -232,9 +237,18 @@ def merge(d, u, path, ex):
             if k is not None:
                 n.kids.append(k)
     if is_unchecked(d):
+        # "unchecked sections are copied": every user child whose name is not
+        # declared below the section is taken as it is - once, in the user's
+        # order, with its attributes and its whole subtree. A user child that
+        # IS declared there was merged above like any declared option (one
+        # node carrying the user's value); it is not expected a second time.
         for c in u:
+            if c.tag in declared:
+                continue
             n.kids.append(copy_user(c))
         n.leaf = (len(n.kids) == 0)
+        n.uc = list(declared)
+        n.user_names = tuple(c.tag for c in u)
     return n
 
 
@@ -292,6 +306,9 @@ def compare(exp, got, path, diffs, order_stats):
     """exp: Node, got: dict from the driver. Appends (key, text) to diffs."""
     here = path + "/" + exp.name
     gk = got.get("c", [])
+    if exp.uc is not None:
+        compare_unchecked(exp, got, here, diffs, order_stats)
+        return
     if exp.leaf and not gk:
         if strip(exp.value) != strip(got.get("v", "")):
             key = {"user": "merge/user-value-lost",
@@ -333,6 +350,93 @@ def compare(exp, got, path, diffs, order_stats):
     if [k.name for k in exp.kids] != [k["n"] for k in gk]:
         order_stats["sibling_order_differs_from_model"] = \
             order_stats.get("sibling_order_differs_from_model", 0) + 1
+
+
+def flatten_exp(nodes, prefix, out):
+    for k in nodes:
+        out.append((prefix + k.name, strip(k.value) if not k.kids else None,
+                    tuple(sorted((k.attrs or {}).items()))))
+        flatten_exp(k.kids, prefix + k.name + "/", out)
+
+
+def flatten_got(nodes, prefix, out):
+    for k in nodes:
+        out.append((prefix + k["n"], strip(k.get("v", "")) if not k["c"] else None,
+                    tuple(sorted(k.get("a", {}).items()))))
+        flatten_got(k["c"], prefix + k["n"] + "/", out)
+
+
+def compare_unchecked(exp, got, here, diffs, order_stats):
+    """below a section declared unchecked: declared children as everywhere;
+    everything else must be the user's content - the same multiset AND the
+    same order of (path, trimmed leaf value, attributes)"""
+    from collections import Counter
+    gk = got.get("c", [])
+    declared = exp.uc
+    e_decl = [k for k in exp.kids if k.origin != "unchecked"]
+    names = []
+    for k in e_decl:
+        if k.name not in names:
+            names.append(k.name)
+    for nm in names:
+        e = [k for k in e_decl if k.name == nm]
+        g = [k for k in gk if k["n"] == nm]
+        if not g:
+            diffs.append(("merge/expected-node-missing",
+                          "%s: declared node '%s' (%s) is missing" % (
+                              here, nm, e[0].origin)))
+            continue
+        if len(g) != len(e):
+            if nm in exp.user_names and len(g) > len(e):
+                diffs.append(("resolve/unchecked/declared-child-duplicated",
+                              "%s: the user supplied the declared option '%s' "
+                              "once; the resolved section holds it %d times "
+                              "(merged like a declared option AND copied "
+                              "again)" % (here, nm, len(g))))
+            else:
+                diffs.append(("merge/list-multiplicity",
+                              "%s: %d nodes '%s', expected %d" % (
+                                  here, len(g), nm, len(e))))
+        for a, b in zip(e, g):
+            compare(a, b, here, diffs, order_stats)
+    for k in gk:
+        if k["n"] in declared and k["n"] not in names:
+            diffs.append(("merge/unexpected-node", "%s: declared node '%s' "
+                          "should be absent" % (here, k["n"])))
+    le, lg = [], []
+    flatten_exp([k for k in exp.kids if k.origin == "unchecked"], "", le)
+    flatten_got([k for k in gk if k["n"] not in declared], "", lg)
+    ce, cg = Counter(le), Counter(lg)
+    lost, extra = ce - cg, cg - ce
+
+    def show(item):
+        return "%s = %r%s" % (item[0], item[1],
+                              (" attributes %s" % dict(item[2])) if item[2] else "")
+    if lost:
+        it = sorted(lost, key=str)[0]
+        diffs.append(("resolve/unchecked/user-leaf-lost",
+                      "%s: user content below the unchecked section is missing "
+                      "from the resolved options: %s (%d of %d occurrences "
+                      "present)%s" % (here, show(it), cg[it], ce[it],
+                                      ("; instead present: " + show(sorted(extra, key=str)[0]))
+                                      if extra else "")))
+    elif extra:
+        it = sorted(extra, key=str)[0]
+        if it in ce:
+            diffs.append(("resolve/unchecked/user-leaf-duplicated",
+                          "%s: %s is present %d times, the user wrote it %d "
+                          "times" % (here, show(it), cg[it], ce[it])))
+        else:
+            diffs.append(("merge/unexpected-node", "%s: %s is neither user "
+                          "content nor declared" % (here, show(it))))
+    elif le != lg:
+        i = [j for j in range(len(le)) if le[j] != lg[j]][0]
+        diffs.append(("resolve/unchecked/order-changed",
+                      "%s: the order of the user's content changed: position %d "
+                      "holds %s, the user wrote %s there" % (
+                          here, i, show(lg[i]), show(le[i]))))
+    order_stats["unchecked_items_compared"] = \
+        order_stats.get("unchecked_items_compared", 0) + len(le)
 
 
 def compare_calcopts(exp, got, path, diffs):
@@ -444,21 +548,95 @@ def must_supply(d):
     return False
 
 
+UC_STEMS = ["method", "scf", "maxcore", "pointcharges", "freeform", "basis"]
+
+
+def uc_value(rng, k):
+    return "%s #%d" % (rng.choice(WORDS), k)
+
+
+def uc_subtree(rng, tag, k):
+    e = ET.Element(tag)
+    for j in range(rng.randint(1, 3)):
+        c = ET.SubElement(e, rng.choice(["ncfree", "opt", "key"]))
+        c.text = uc_value(rng, 10 * k + j)
+    return e
+
+
+def fill_unchecked_section(rng, d, u, stats):
+    """free-form user content below a section declared unchecked: distinct
+    undeclared tags; the same tag 2x / 3x as direct children (leaves and small
+    subtrees, a different value each time); repeated tags one level deeper;
+    user attributes; a tag that is also DECLARED below the section (once)"""
+    def hit(k):
+        stats["unchecked_kind_" + k] = stats.get("unchecked_kind_" + k, 0) + 1
+    kids = []
+    n_dist = rng.randint(0, 3)
+    for i in range(n_dist):
+        c = ET.Element(rng.choice(UC_STEMS) + str(i))
+        if rng.random() < 0.3:
+            g = ET.SubElement(c, "ncfree")
+            g.text = uc_value(rng, i)
+        else:
+            c.text = uc_value(rng, i)
+        kids.append(c)
+    if n_dist:
+        hit("distinct_tags")
+    if rng.random() < 0.6:
+        # the same tag twice, leaf values
+        tag = rng.choice(UC_STEMS) + "7"
+        for k in range(2):
+            c = ET.Element(tag)
+            c.text = uc_value(rng, 70 + k)
+            kids.append(c)
+        hit("same_tag_2x")
+    if rng.random() < 0.6:
+        # the same tag three times: leaves and small subtrees mixed
+        tag = rng.choice(UC_STEMS) + "8"
+        for k in range(3):
+            if rng.random() < 0.5:
+                kids.append(uc_subtree(rng, tag, 80 + k))
+            else:
+                c = ET.Element(tag)
+                c.text = uc_value(rng, 80 + k)
+                kids.append(c)
+        hit("same_tag_3x")
+    if rng.random() < 0.5:
+        # repeated tags one level deeper (inside one copied subtree)
+        blk = ET.Element(rng.choice(UC_STEMS) + "9")
+        for k in range(rng.randint(2, 3)):
+            c = ET.SubElement(blk, "opt")
+            c.text = uc_value(rng, 90 + k)
+        kids.append(blk)
+        hit("nested_repeats")
+    if rng.random() < 0.4 and kids:
+        rng.choice(kids).set("type", rng.choice(["x", "a b", "q&r", "1<2"]))
+        hit("user_attributes")
+    if not kids:
+        c = ET.Element("freeform0")
+        c.text = uc_value(rng, 0)
+        kids.append(c)
+    if rng.random() < 0.8:
+        rng.shuffle(kids)      # repeated tags interleaved with the others
+        hit("interleaved")
+    declared = [c for c in d if len(c) == 0 and default_of(c) not in RESERVED]
+    if declared and rng.random() < 0.6:
+        dc = rng.choice(declared)
+        c = ET.Element(dc.tag)
+        c.text = gen_valid_value(rng, dc.attrib.get("choices"))
+        kids.insert(rng.randint(0, len(kids)), c)
+        hit("declared_child_supplied")
+    for c in kids:
+        u.append(c)
+
+
 def gen_user(rng, d, p, fill_unchecked, stats):
     """user element for declaration d (already decided to be present)"""
     u = ET.Element(d.tag)
     if is_unchecked(d):
         if fill_unchecked:
             stats["unchecked_filled"] = stats.get("unchecked_filled", 0) + 1
-            for i in range(rng.randint(1, 3)):
-                c = ET.SubElement(u, rng.choice(["method", "scf", "maxcore",
-                                                 "pointcharges", "freeform"])
-                                  + str(i))
-                if rng.random() < 0.3:
-                    g = ET.SubElement(c, "ncfree")
-                    g.text = rng.choice(WORDS)
-                else:
-                    c.text = rng.choice(WORDS)
+            fill_unchecked_section(rng, d, u, stats)
         return u
     if len(d) == 0:
         u.text = decorate(rng, gen_valid_value(rng, d.attrib.get("choices")))
@@ -468,6 +646,8 @@ def gen_user(rng, d, p, fill_unchecked, stats):
         for tag in child_tags(d):
             dc = d.find(tag)
             m = rng.choice([0, 1, 1, 2, 3])
+            if fill_unchecked and id(dc) in fill_unchecked:
+                m = max(1, m)     # the way to an unchecked section
             stats["list_mult_%d" % m] = stats.get("list_mult_%d" % m, 0) + 1
             sparse_later = rng.random() < 0.5
             for j in range(m):
@@ -488,7 +668,8 @@ def gen_user(rng, d, p, fill_unchecked, stats):
     if rng.random() < 0.3:
         rng.shuffle(kids)         # user order need not be the declared order
     for dc in kids:
-        if must_supply(dc) or rng.random() < p:
+        forced = bool(fill_unchecked) and id(dc) in fill_unchecked
+        if must_supply(dc) or forced or rng.random() < p:
             u.append(gen_user(rng, dc, p, fill_unchecked, stats))
     return u
 
@@ -606,6 +787,27 @@ class Case:
         self.additional = []
 
 
+def unchecked_ancestors(d):
+    """ids of the declaration nodes that are, or lead to, a section carrying
+    the attribute unchecked (found by attribute in the resolved description)"""
+    ids = set()
+
+    def rec(e):
+        has = is_unchecked(e)
+        for c in e:
+            if rec(c):
+                has = True
+        if has:
+            ids.add(id(e))
+        return has
+    rec(d)
+    return ids
+
+
+def has_unchecked(decl):
+    return any(is_unchecked(e) for e in decl.iter())
+
+
 def gen_case(rng, cid, calc, decl, family, stats):
     dcalc = decl.find(calc)
     p = rng.choice([0.0, 0.15, 0.4, 0.7, 0.95, 1.0])
@@ -613,7 +815,8 @@ def gen_case(rng, cid, calc, decl, family, stats):
         p = rng.choice([0.7, 0.95, 1.0])
     root = ET.Element("options")
     before = stats.get("unchecked_filled", 0)
-    ucalc = gen_user(rng, dcalc, p, family == "unchecked", stats)
+    force = unchecked_ancestors(dcalc) if family == "unchecked" else False
+    ucalc = gen_user(rng, dcalc, p, force, stats)
     root.append(ucalc)
     if family == "unchecked" and stats.get("unchecked_filled", 0) == before:
         family = "valid"      # no unchecked section in this user tree
@@ -725,6 +928,7 @@ SYNTH = {
           </member>
           <alias/>
         </members>
+        <raw unchecked="" default="OPTIONAL"/>
         <sub>
           <deep default="d"/>
           <flag default="false" choices="bool"/>
@@ -733,6 +937,14 @@ SYNTH = {
       <single default="OPTIONAL" choices="int"/>
     </groups>
     <free unchecked="" default="OPTIONAL"/>
+    <tuned unchecked="" help="free-form keywords next to declared ones">
+      <known default="k0"/>
+      <level default="2" choices="int"/>
+      <osec>
+        <x default="1"/>
+      </osec>
+      <maybe default="OPTIONAL"/>
+    </tuned>
     <plain default="text"/>
     <opt_section default="OPTIONAL">
       <needed default="REQUIRED"/>
@@ -831,10 +1043,10 @@ def count_decl_leaves(d):
     return sum(1 for e in d.iter() if len(e) == 0)
 
 
-FAMILIES = ["valid", "fault_undeclared", "valid", "fault_choice", "valid",
+FAMILIES = ["valid", "fault_undeclared", "valid", "fault_choice", "unchecked",
             "unchecked", "valid", "fault_required", "valid", "valid",
             "fault_undeclared", "valid", "fault_choice", "additional_choices",
-            "fault_required", "valid", "fault_undeclared_userattr", "valid",
+            "fault_required", "unchecked", "fault_undeclared_userattr", "valid",
             "fault_choice", "valid"]
 
 
@@ -990,6 +1202,9 @@ def judge(out, c, r, decl, xmldir):
     if fam in ("valid", "unchecked", "additional_choices"):
         if fam == "additional_choices":
             out.distinct.add(h)
+        if fam == "unchecked":
+            out.distinct.add(h)
+            out.counter("unchecked_cases/" + c.calc)
         if ex.errors:
             out.inconclusive("generator produced an invalid 'valid' case %s: %s"
                              % (c.id, ex.errors[:3]))
@@ -1001,7 +1216,7 @@ def judge(out, c, r, decl, xmldir):
         if not r["ok"]:
             wit["error"] = r["err"]
             if fam == "unchecked" and re.search(
-                    r"(method|scf|maxcore|pointcharges|freeform)\d|ncfree",
+                    r"(method|scf|maxcore|pointcharges|freeform|basis)\d|ncfree",
                     r["err"]):
                 out.violation("merge/unchecked-section-rejected",
                               "user content below a section declared "
@@ -1027,6 +1242,15 @@ def judge(out, c, r, decl, xmldir):
             out.counter(k, v)
         seen = set()
         for key, txt in diffs:
+            if key == "resolve/unchecked/declared-child-duplicated" and \
+                    c.calc.startswith("synth"):
+                # only reachable through a synthetic description (no shipped
+                # unchecked section declares children): outside the property's
+                # quantifier "every calculator description shipped with
+                # VOTCA" - observed and counted, not judged (DESIGN 11.1b)
+                out.counter("observed_only/synthetic-description/"
+                            "declared-child-of-unchecked-section-duplicated")
+                continue
             if key in seen:
                 continue
             seen.add(key)
